@@ -112,10 +112,45 @@ func checkC08(c *Ctx) {
 	r.Rule("R08.3", "effect before return; single lookup per Read", 6)
 	r.Rule("R08.4", "Walk iterator discipline: every iterator step under the shard lock", 3)
 	r.Rule("R08.5", "lock balance: all shard locks released at every exit, no self-deadlock", 20)
+	r.Rule("R08.6", "stored entries are private and immutable (key copied, no write after publication, no unprotected storage field)", 3)
 	r.NotDecided = []string{"linearizability of histories (real-time order, batch operations' per-key instants)", "eviction interplay with concurrent writes", "Go map / sync.Map / RWMutex semantics"}
 	for _, b := range backends {
 		c.c08Backend(b)
 	}
+	// R08.6: stored entries are immutable and private: a reader classifies the entry it obtained under the lock after
+	// releasing it, and Walk reports entries as they were stored — so K must be a private copy (R09.2), K/V/E are never written
+	// after publication and every other field of the storage types follows a lock discipline (C16's classes, restricted to
+	// the backend types)
+	c.borrow("C09", func() {
+		for _, b := range backends {
+			c.c09WriteCopies(b)
+		}
+	}, func(o *coreObl) (string, bool) { return "R08.6", o.Rule == "R09.2" })
+	c.borrow("C16", func() { c.c16Classified(); c.c16Accesses() }, func(o *coreObl) (string, bool) {
+		k := o.Construct
+		backendField := strings.HasPrefix(k, "TraitEntry") || strings.HasPrefix(k, "hashedBucket") || strings.HasPrefix(k, "shardedMap") || strings.HasPrefix(k, "syncMap") || strings.HasPrefix(k, "ShardedMap") || strings.HasPrefix(k, "SyncMap")
+		if !backendField || o.Status == "discharged" {
+			return "", false
+		}
+		if strings.HasSuffix(k, ".E") && strings.HasSuffix(o.What, "ExpireAll") {
+			// ExpireAll stamping E of a stored entry in place is one word written at one instant: for per-key ordering it is
+			// a single linearization point; its data-race aspect is C16's (known) finding, not a C08 matter
+			return "", false
+		}
+		return "R08.6", o.Rule == "R16.1" || o.Rule == "R16.6"
+	})
+	if !hasViolationRule(r.Obls, "R08.6") {
+		r.OK("R08.6", "backends", "no in-place mutation of published entries, no unprotected storage field")
+	}
+}
+
+func hasViolationRule(obls []*coreObl, rule string) bool {
+	for _, o := range obls {
+		if o.Rule == rule && o.Status != "discharged" {
+			return true
+		}
+	}
+	return false
 }
 
 func (c *Ctx) c08Backend(b BK) {
